@@ -56,6 +56,10 @@ func Run(cfg hx.Config) error {
 		k := families[i%len(families)]
 		x.archiveBytes("raw-"+k.name, writeRaw(x.encodeRaw(generate(x.rnd, k))))
 	}
+	nChain := cfg.N(80, 3000)
+	for i := 0; i < nChain && !r.Stop(); i++ {
+		x.archive("longchain", genChain(x.rnd))
+	}
 	nBig := cfg.N(6, 60)
 	for i := 0; i < nBig && !r.Stop(); i++ {
 		x.archive("big", generate(x.rnd, bigFamily))
